@@ -39,8 +39,8 @@ TRACE = os.path.join(EXT, "ExtLayoutTrace.tla")
 # tier parameters.  cases = configurations executed on the implementation (None = all enumerated);
 # round = cases per execute/evaluate round (bounds memory); chunk = cases per TLC evaluation process.
 TIERS = {
-    "quick": dict(maxlen=3, cases=40000, round=40000, chunk=5200, mc_timeout=300),
-    "thorough": dict(maxlen=4, cases=None, round=96000, chunk=12000, mc_timeout=1500),
+    "quick": dict(maxlen=3, cases=30000, round=30000, chunk=4000, mc_timeout=300),
+    "thorough": dict(maxlen=4, cases=400000, round=100000, chunk=12500, mc_timeout=1500),
 }
 
 
@@ -59,6 +59,14 @@ def _cfg_with(scratch: str, src_name: str, out_name: str, **subst) -> str:
     with open(path, "w") as f:
         f.write(src)
     return path
+
+
+def _tlc(ctx, *a, **kw):
+    """ctx.tlc with one retry when the JVM died without producing a result (seen once on a loaded machine)."""
+    res = ctx.tlc(*a, **kw)
+    if res.returncode != 0 and not res.violated and not res.errors and res.distinct == 0 and not res.timed_out:
+        res = ctx.tlc(*a, **kw)
+    return res
 
 
 def _design_ok(res, what: str) -> None:
@@ -199,7 +207,7 @@ def evaluate(ctx, obs_all: list, chunk: int, tag: str = "tr") -> dict:
             with open(path, "w") as f:
                 for o in part:
                     f.write(json.dumps(o, separators=(",", ":")) + "\n")
-            res = ctx.tlc(TRACE, cfg, tag=f"{tag}{k}", workers=2, timeout=1500, env={"TRACE_FILE": path},
+            res = _tlc(ctx, TRACE, cfg, tag=f"{tag}{k}", workers=2, timeout=1500, env={"TRACE_FILE": path},
                           deadlock=False, count=False, heap="3g")
             done = None
             rep = {}
@@ -335,7 +343,7 @@ def run(ctx):
     ]
 
     # ---- (1) the protocol ------------------------------------------------------------------------------
-    r1 = ctx.tlc(SAVEMC, os.path.join(EXT, "ExtLayoutSaveMC.cfg"), tag="save", workers=_nproc(), timeout=600,
+    r1 = _tlc(ctx, SAVEMC, os.path.join(EXT, "ExtLayoutSaveMC.cfg"), tag="save", workers=_nproc(), timeout=600,
                  deadlock=False, coverage=True)
     _design_ok(r1, "save protocol: Restored / StepwiseIsLayout / NoEarlyAssign / FailureSurfaces")
     want = ("Enter", "Split", "Shard", "Place", "Write", "Assign", "Serialize", "Finally")
@@ -348,7 +356,7 @@ def run(ctx):
     side: dict = {}
 
     def _side(key, tla, cfgname, tag):
-        side[key] = ctx.tlc(tla, os.path.join(EXT, cfgname), tag=tag, workers=2, timeout=600, deadlock=False, count=False)
+        side[key] = _tlc(ctx, tla, os.path.join(EXT, cfgname), tag=tag, workers=2, timeout=600, deadlock=False, count=False)
 
     ths = [threading.Thread(target=_side, args=("nofin", SAVEMC, "ExtLayoutSaveMC_nofinally.cfg", "nofin")),
            threading.Thread(target=_side, args=("stdev", MC, "ExtLayoutMC_stdev.cfg", "stdev"))]
@@ -367,7 +375,7 @@ def run(ctx):
 
     # ---- (2) enumeration ---------------------------------------------------------------------------------
     cfg = _cfg_with(ctx.scratch, "ExtLayoutMC.cfg", "enum.cfg", MaxLen=tp["maxlen"])
-    r2 = ctx.tlc(MC, cfg, tag="enum", workers=_nproc(), timeout=tp["mc_timeout"], deadlock=False,
+    r2 = _tlc(ctx, MC, cfg, tag="enum", workers=_nproc(), timeout=tp["mc_timeout"], deadlock=False,
                  heap="12g" if ctx.tier == "thorough" else "8g")
     _design_ok(r2, "enumeration: every formula on every configuration")
     cfgs, names = xl.parse_mc(r2.out_path)
@@ -401,12 +409,14 @@ def run(ctx):
     rng = random.Random(ctx.seed)
     idx = list(range(len(cfgs)))
     if tp["cases"] is not None and len(idx) > tp["cases"]:
-        # every configuration of <= 2 tensors, a seeded sample of the rest
-        small = [i for i in idx if len(cfgs[i][0][1]) <= 2]
-        rest = [i for i in idx if len(cfgs[i][0][1]) > 2]
+        # every configuration of the shorter tuples (quick: <= 2 tensors, thorough: <= 3), a seeded sample of the rest
+        keep = tp["maxlen"] - 1
+        small = [i for i in idx if len(cfgs[i][0][1]) <= keep]
+        rest = [i for i in idx if len(cfgs[i][0][1]) > keep]
         rng.shuffle(rest)
         idx = sorted(small + rest[:max(0, tp["cases"] - len(small))])
         ctx.exhaustive = False
+        ctx.extra["executed_all_configurations_up_to_len"] = keep
     else:
         ctx.exhaustive = True
     ctx.extra["configurations_executed"] = len(idx)
